@@ -40,6 +40,7 @@ try:
     res["alarms"] = det
 finally:
     sh("git -C /repo checkout -- .", check=True)
+    sh("git -C /verif checkout -- evidence")  # evidence is only ever committed from the unchanged tree
 print(json.dumps({k: v for k, v in res.items() if k != "alarms"}, indent=1))
 for p, d in res["alarms"].items():
     print("ALARM", p, d["exit"], d["failed_rules"])
